@@ -399,7 +399,9 @@ Print Assumptions C04_gmrf_rank_refuted.
    (mass of [mu-T, mu+T] is 1 - exp(-T/b), limit 1) and Cauchy (mass of [l-T, l+T] is (2/pi) atan(T/s), limit 1),
    each per coordinate (the multi-dimensional densities are products of these factors; Fubini is not formalised).
    Gamma with INTEGER shape is proved in full (C04_gamma_int_normalised).
-   NOT proved: Normal/Gaussian, Gamma with non-integer shape, InverseGamma, Beta, Lognormal (no Gaussian integral / Gamma-function theory in
+   Lognormal is reduced to Normal (C04_lognormal_mass,
+   C04_lognormal_normalised_given_normal).
+   NOT proved: Normal/Gaussian, Gamma / Beta with non-integer shapes, InverseGamma (no Gaussian integral / Gamma-function theory in
    the installed libraries), and SmoothedLaplace (whose documented density is in fact not normalised for beta > 0);
    for those the theorems above say "equals the documented formula" and the harness's oracle compares with
    independent references. *)
